@@ -23,6 +23,10 @@ def exact(ctx, name, p, x0, y0, x):
     if name == 'ode_xpow':          # y' = x^m, m = 8a + 2b
         m = 8 * a + 2 * b
         return [y0[0] + (x ** (m + 1) - x0 ** (m + 1)) / (m + 1)]
+    if name == 'ode_bigosc':        # y0' = 0 ; y1' = -w y2 ; y2' = w y1
+        w = 4 * (a + 1)
+        c, s_ = ctx.cos(w * t), ctx.sin(w * t)
+        return [y0[0], y0[1] * c - y0[2] * s_, y0[2] * c + y0[1] * s_]
     if name == 'ode_osc':           # y0' = y1, y1' = -a^2 y0
         c, s = ctx.cos(a * t), ctx.sin(a * t)
         return [y0[0] * c + y0[1] / a * s, -y0[0] * a * s + y0[1] * c]
@@ -44,6 +48,6 @@ def growth_L(name, p):
     return 0
 
 def dim(name):
-    return 2 if name in ('ode_osc', 'ode_tri') else 1
+    return 3 if name == 'ode_bigosc' else (2 if name in ('ode_osc', 'ode_tri') else 1)
 
-PROBLEMS = ['ode_exp', 'ode_lin', 'ode_rat', 'ode_poly', 'ode_osc', 'ode_tri', 'ode_xpow']
+PROBLEMS = ['ode_exp', 'ode_lin', 'ode_rat', 'ode_poly', 'ode_osc', 'ode_tri', 'ode_xpow', 'ode_bigosc']
